@@ -127,6 +127,22 @@ def module_source():
         lines.append('    pass')
         lines.append('')
         lines.append('')
+    # an equation that reads the trace property of its sources: what it
+    # sees depends on which destinations of the group were processed before
+    lines.append('class TrX(Equation):')
+    lines.append('    def __init__(self, dest, sources, p=3, c=1, nconv=0, '
+                 'move=0.0, hgrow=1.0):')
+    lines.append('        self.p = p')
+    lines.append('        self.c = c')
+    lines.append('        super(TrX, self).__init__(dest, sources)')
+    lines.append('    def initialize(self, d_idx, d_tr):')
+    lines.append('        d_tr[d_idx] = (d_tr[d_idx]*self.p + self.c + 2) '
+                 '% 1000003')
+    lines.append('    def loop(self, d_idx, s_idx, d_tr, s_tr):')
+    lines.append('        d_tr[d_idx] = (d_tr[d_idx]*self.p + s_tr[s_idx] + '
+                 'self.c + 4) % 1000003')
+    lines.append('')
+    lines.append('')
     lines.append('class Nop(Equation):')
     lines.append('    def initialize(self, d_idx, d_nopv):')
     lines.append('        d_nopv[d_idx] = 0.0')
@@ -161,10 +177,16 @@ def trace_module():
 # ---------------------------------------------------------------------------
 # particle data
 # ---------------------------------------------------------------------------
-def make_arrays():
+def make_arrays(variant=0):
+    """variant 1: the same particles with other tags - array a has one
+    real particle fewer, array b one more (used for the second evaluation of
+    every program: the number of real particles is read when a group runs,
+    not when the evaluator is built)."""
     from pysph.base.particle_array import ParticleArray
     out = []
     layout = [('a', 4, 2, 0.0), ('b', 3, 1, 0.15), ('c', 2, 0, 0.3)]
+    if variant == 1:
+        layout = [('a', 3, 3, 0.0), ('b', 4, 0, 0.15), ('c', 2, 0, 0.3)]
     uid = 1
     for name, nreal, ng, off in layout:
         n = nreal + ng
@@ -203,13 +225,15 @@ def state_of(arrays):
     return st
 
 
-INIT = [None]
+INIT = [None, None]
+EVAL = [0]       # which evaluation of the pack is running (0 or 1)
 
 
 def reset(arrays):
-    if INIT[0] is None:
-        INIT[0] = make_arrays()
-    for pa, ref in zip(arrays, INIT[0]):
+    v = EVAL[0]
+    if INIT[v] is None:
+        INIT[v] = make_arrays(v)
+    for pa, ref in zip(arrays, INIT[v]):
         n = pa.get_number_of_particles()
         m = ref.get_number_of_particles()
         if n != m:
@@ -270,6 +294,8 @@ def build_group(spec, log, tagp):
         for e in spec['eqs']:
             if e['sources'] is None:
                 cls = getattr(mod, 'TrN%03d' % (e['mask'] & ~0b0001100))
+            elif e.get('cross'):
+                cls = mod.TrX
             elif e.get('derived'):
                 cls = getattr(mod, 'TrD%03d' % e['mask'])
             else:
@@ -341,6 +367,16 @@ def programs(thorough, seed):
     for mask in range(0, 128, 1 if thorough else 3):
         progs.append([group_spec([eq_spec(mask, 'b', ('a',), p=5, c=2),
                                   eq_spec(FULL, 'a', ('b', 'c'), p=3, c=1)])])
+    # (1c) destinations are processed in order of first appearance: the
+    #      second destination reads what the first one just wrote
+    for d1, d2 in itertools.permutations(('a', 'b', 'c'), 2):
+        x = eq_spec(0, d2, (d1,), p=5, c=2)
+        x['cross'] = True
+        y = eq_spec(0, d1, (d2,), p=7, c=3)
+        y['cross'] = True
+        progs.append([group_spec([eq_spec(FULL, d1, (d2,), p=3, c=1), x])])
+        progs.append([group_spec([y, x])])
+        progs.append([group_spec(subgroups=[group_spec([y, x])]), ])
     # (1b) the same with classes that inherit all their hooks
     for mask in range(0, 128, 1 if thorough else 5):
         progs.append([group_spec([eq_spec(mask, 'a', ('a', 'b'), p=3,
@@ -483,8 +519,11 @@ def run_pack(progs, times):
             ae = AccelerationEval(arrays, groups, kernel)
             SPHCompiler(ae, None).compile()
             ae.set_nnps(nn)
-            for (t, dt) in times:
+            for ti, (t, dt) in enumerate(times):
                 del results[:]
+                EVAL[0] = min(ti, 1)
+                reset(arrays)
+                nn.update()
                 try:
                     ae.compute(t, dt)
                 except Exception as e:  # noqa
@@ -493,8 +532,11 @@ def run_pack(progs, times):
                 res_t.append(list(results))
         else:
             ip = Interp(arrays, groups, kernel, nn)
-            for (t, dt) in times:
+            for ti, (t, dt) in enumerate(times):
                 del results[:]
+                EVAL[0] = min(ti, 1)
+                reset(arrays)
+                nn.update()
                 try:
                     ip.compute(t, dt)
                 except Exception as e:  # noqa
